@@ -46,7 +46,21 @@ pub fn parse_disamb(errors: &[String]) -> Vec<Vec<usize>> {
 pub fn observe(spec: &Spec, state_machine: bool) -> (String, Observed) {
     let src = spec.render("T", "");
     let g = vdrive::generate(&src, state_machine);
-    (src, g.observed)
+    let mut obs = g.observed;
+    if spec.utf8 {
+        // the str mode is the default: spelling it out must not change anything
+        let g2 = vdrive::generate(&format!("#[logos(utf8 = true)]\n{src}"), state_machine);
+        if g2.observed.accepted != obs.accepted || g2.observed.graph != obs.graph || g2.observed.panicked != obs.panicked {
+            obs.explicit_default_differs = Some(format!(
+                "with an explicit #[logos(utf8 = true)]: accepted {}, {} (without it: accepted {}, {})",
+                g2.observed.accepted,
+                g2.observed.errors.first().map(|e| e.lines().next().unwrap_or("").to_string()).unwrap_or_else(|| "no diagnostic".into()),
+                obs.accepted,
+                obs.errors.first().map(|e| e.lines().next().unwrap_or("").to_string()).unwrap_or_else(|| "no diagnostic".into())
+            ));
+        }
+    }
+    (src, obs)
 }
 
 /// Everything Layer 1 can say about one definition.
@@ -66,6 +80,9 @@ pub fn process_observed_opt(spec: &Spec, obs: &Observed, utf8_paths_only: bool) 
     if let Some(p) = &obs.panicked {
         add(&mut out, "PANIC", format!("generate() panicked: {p}"));
         return out;
+    }
+    if let Some(d) = &obs.explicit_default_differs {
+        add(&mut out, "EXPLICIT-DEFAULT", d.clone());
     }
     let bounds = obs.graph.as_ref().map(|g| g.range_boundaries()).unwrap_or_default();
     let fallback: Option<Vec<usize>> = obs.graph.as_ref().map(|g| g.leaves.iter().map(|l| l.priority).collect());
@@ -243,7 +260,7 @@ pub fn tag_property(tag: &str) -> &'static [&'static str] {
         "EOI-STRUCT" | "ROOT" | "NULLABLE-ACCEPTED" => &["C03"],
         "STEP" => &["C03", "C20"],
         "DETERMINISM" => &["C20", "C01"],
-        "NONUTF8-ACCEPTED" => &["C04", "C12"],
+        "NONUTF8-ACCEPTED" | "EXPLICIT-DEFAULT" => &["C04", "C12"],
         "PARTIAL-UNSOUND" | "PARTIAL-LATE" => &["C07"],
         "CONFLICT-MISSED" | "CONFLICT-SPURIOUS" | "CONFLICT-NAMES" => &["C08"],
         "PRIO-MISMATCH" | "TOKEN-BEATEN" => &["C09"],
